@@ -97,6 +97,8 @@ def repetition_sweeps(quick):
     """one fragment repeated k times for EVERY k up to a few hundred (counters, give-up limits, windows and recursion
     guards sit at round numbers nobody would pick by hand), behind each opener and in front of each tail"""
     K = 140 if quick else 330
+    from boundaries import mined
+    K = max([K] + [c + 4 for c in mined()[0] if c <= 3000])          # a give-up / rewind limit a changed tree introduced
     plans = {"jsstr": ([b'"', b"'", b"x = '"], [b'\\"', b"\\'", b'"', b"'", b"\\\\", b"a", b"\\u{1}", b"'\n\""], [b"", b"\n", b'"', b"x"]),
              "attrs": ([b"<a", b"<a b", b""], [b" b=c", b' d="e"', b" f", b"<", b">", b"='"], [b"", b">", b"\n", b"'"]),
              "symbol": ([b"", b"x"], [b"{", b"};", b";\n", b"]["], [b"", b"\n", b"y"]),
